@@ -164,16 +164,25 @@ def run(ctx):
                 for k, cf in collectors.items():
                     if n.get("callee") == cf.id:
                         used.add(k)
+        # second form: a walk over groups_ that asks every group's own per-kind map (no merged temporary maps)
+        per_group = _per_group_membership(prog, h, kind_maps) if used != set(kind_maps) else None
+        if per_group is not None:
+            used = per_group[0]
         ctx.check(used == set(kind_maps), "R13.2", h, "all-kinds-consulted", "has_option_with_name ignores the kinds %s" % sorted(set(kind_maps) - used), h)
         rets = [ir.unwrap(e["expr"].get("e")) for _, _, e in h.roots() if e["expr"].get("k") == "return"]
         shape_ok = True
+        if per_group is not None:
+            ctx.check(per_group[1], "R13.2", h, "membership-sum", "has_option_with_name walks the groups but %s" % per_group[2], h, why_ok="true exactly under a membership test inside the walk over groups_, false after it")
+            rets = []
+            shape_ok = None
         for r in rets:
             s = fmt(r)
             terms = re.findall(r"get_all_\w+\(\)\.count\(\w+\)", s)
             rest = re.sub(r"get_all_\w+\(\)\.count\(\w+\)", "", s)
             if len(terms) != len(kind_maps) or re.sub(r"[()+| !=0]", "", rest) != "":
                 shape_ok = False
-        ctx.check(shape_ok and len(rets) == 1, "R13.2", h, "membership-sum", "has_option_with_name returns %s - not the membership of the name in every kind" % [fmt(r)[:90] for r in rets], h)
+        if shape_ok is not None:
+          ctx.check(shape_ok and len(rets) == 1, "R13.2", h, "membership-sum", "has_option_with_name returns %s - not the membership of the name in every kind" % [fmt(r)[:90] for r in rets], h)
         # derived state: parser members read here must be maintained by the declaration functions
         pfields = class_fields(prog, NS + "parser")
         read = set()
@@ -434,3 +443,63 @@ def run(ctx):
         from .common import share
         share(ctx, "C01", ("R01.5",), "R13.7", "matching obligations shared with C01", 4)
     ctx.assume("new declaration entry points are picked up by R13.4's exhaustiveness, not by R13.1")
+
+
+def _per_group_membership(prog, h, kind_maps):
+    """(kinds consulted, shape ok, why) when has_option_with_name is a loop over groups_ with `return true` under per-kind membership
+    tests on the group element and `return false` behind the loop; None when it is not such a loop"""
+    loops = cfg.loop_blocks(h)
+    if len(loops) != 1:
+        return None
+    head, body = loops[0]
+    if "groups_" not in " ".join(fmt(e["expr"]) for _, _, e in h.roots() if e["expr"].get("k") == "decl"):
+        return None
+    name = h.params[0]["name"] if h.params else "name"
+    member_of = {v: k for k, v in kind_maps.items()}
+    kinds = set()
+    tests = []  # (bid of the branch, cond text)
+    for b in body:
+        c = h.term(b).get("cond")
+        if c is None:
+            continue
+        for n in walk(c):
+            if n.get("k") == "call" and short(n.get("name") or "") in ("count", "find", "contains") and [fmt(ir.unwrap(a)) for a in n.get("args", [])] == [name]:
+                recv = ir.unwrap(n.get("this"))
+                g = prog.fn(recv.get("callee") or "") if isinstance(recv, dict) and recv.get("k") == "call" else None
+                fld = None
+                if g is not None and g.has_cfg and g.cls == NS + "group":
+                    r0 = [fmt(ir.unwrap(x["expr"].get("e"))) for _, _, x in g.roots() if x["expr"].get("k") == "return"]
+                    fld = r0[0] if len(r0) == 1 else None
+                elif isinstance(recv, dict) and recv.get("k") == "member":
+                    fld = short(recv.get("field") or "")
+                if fld in member_of:
+                    kinds.add(member_of[fld])
+                    tests.append(b)
+    if not kinds:
+        return None
+    rets = [(bid, fmt(ir.unwrap(e["expr"].get("e")))) for bid, _, e in h.roots() if e["expr"].get("k") == "return"]
+    ok = True
+    why = ""
+    for bid, txt in rets:
+        if txt == "true":
+            # without the true edges of the membership tests the `return true` must be out of reach
+            seen, st = set(), [h.entry]
+            while st:
+                b0 = st.pop()
+                if b0 in seen:
+                    continue
+                seen.add(b0)
+                for to, lab in h.succs(b0):
+                    if b0 in tests and lab == "true":
+                        continue
+                    st.append(to)
+            if bid in seen:
+                ok, why = False, "`return true` can be reached without a membership test of the walk succeeding"
+        elif txt == "false":
+            if bid in body:
+                ok, why = False, "`return false` sits inside the walk: later groups are not consulted"
+        else:
+            ok, why = False, "returns %s" % txt
+    if not any(t == "true" for _, t in rets) or not any(t == "false" for _, t in rets):
+        ok, why = False, "does not return both answers"
+    return kinds, ok, why
